@@ -1747,16 +1747,24 @@ func (t *tScreen) collectEventsFromInput(buf *bytes.Buffer, expire bool) []Event
 			partials++
 		}
 
+		keyPartial := false
 		if part, comp := t.parseFunctionKey(buf, &res); comp {
 			continue
 		} else if part {
 			partials++
+			keyPartial = true
 		}
 
-		if part, comp := t.parseFocus(buf, &res); comp {
-			continue
-		} else if part {
-			partials++
+		// A focus report can be a proper prefix of a key sequence (rxvt's
+		// control-arrow keys are ESC [ O a..d).  While such a key may still
+		// be arriving, hold the focus report back until the escape timeout,
+		// so that the result does not depend on how the bytes were read.
+		if !keyPartial || expire {
+			if part, comp := t.parseFocus(buf, &res); comp {
+				continue
+			} else if part {
+				partials++
+			}
 		}
 
 		// Only parse mouse records if this term claims to have
